@@ -53,7 +53,7 @@ pub fn random_req(rng: &mut Pcg64Mcg, max_steps: u64) -> Req {
     } else {
         (kt_finish, kt_ratio)
     };
-    let max_step = pick(rng, &[2e-5, 0.001, 0.01, 0.05, 0.5, 1.0]);
+    let max_step = pick(rng, &[2e-6, 2e-5, 0.001, 0.01, 0.05, 0.5, 1.0]);
     let convergence = pick(rng, &[None, None, Some(0.), Some(1e-3), Some(0.5), Some(10.)]);
     Req {
         steps,
@@ -112,11 +112,14 @@ fn random_cells(rng: &mut Pcg64Mcg) -> (Vec<f64>, Vec<(f64, f64)>) {
             rng,
             &[(0., 1.), (-0.5, 0.5), (0.01, 7.3), (0., 2. * PI), (0.1, 1.), (PI / 6., PI / 2.)],
         );
-        let v = match rng.gen_range(0, 6) {
+        let v = match rng.gen_range(0, 8) {
             0 => b.0,
             1 => b.1,
             2 => b.0 + (b.1 - b.0) * 1e-3,
             3 => b.1 - (b.1 - b.0) * 1e-3,
+            // a hair inside a limit (closer than any tolerance a clamp might use)
+            4 => b.0 + (b.1 - b.0) * 1.5e-6,
+            5 => b.1 - (b.1 - b.0) * 1.5e-6,
             _ => b.0 + (b.1 - b.0) * rng.gen::<f64>(),
         };
         vals.push(v);
